@@ -216,7 +216,10 @@ fn main() {
             let start = std::time::Instant::now();
             // fixed cases (exhaustive small scopes, regression corpus) are dealt round-robin to
             // the workers and run before each worker's random cases
-            let fixed = Arc::new(prop.fixed_cases(tier));
+            // regression corpus (minimised past failures, inputs that expose seeded changes) runs first
+            let mut all_fixed = load_corpus(prop.id());
+            all_fixed.extend(prop.fixed_cases(tier));
+            let fixed = Arc::new(all_fixed);
             std::thread::scope(|s| {
                 for w in 0..workers {
                     let merged = merged.clone();
@@ -284,6 +287,29 @@ fn main() {
             std::process::exit(2);
         }
     }
+}
+
+/// request lines kept under /verif/corpus/<id>/*.case (`#` lines are comments)
+fn load_corpus(id: &str) -> Vec<Case> {
+    let mut out = vec![];
+    let dir = std::path::Path::new("corpus").join(id);
+    let mut files: Vec<std::path::PathBuf> = match std::fs::read_dir(&dir) {
+        Ok(rd) => rd.filter_map(|e| e.ok()).map(|e| e.path()).filter(|p| p.extension().map(|x| x == "case").unwrap_or(false)).collect(),
+        Err(_) => return out,
+    };
+    files.sort();
+    for f in files {
+        if let Ok(text) = std::fs::read_to_string(&f) {
+            for line in text.lines() {
+                let line = line.trim();
+                if line.is_empty() || line.starts_with('#') {
+                    continue;
+                }
+                out.push(Case { req: line.to_string(), in_domain: !line.starts_with("X "), nontrivial: true, tags: vec!["corpus"] });
+            }
+        }
+    }
+    out
 }
 
 fn merge(into: &mut Stats, st: Stats) {
